@@ -1073,7 +1073,7 @@ fn build_evidence(prop: &str, tier: &str, seed: u64, a: &Agg, per_scenario: &[Va
             "reach_warnings": warnings,
             "distinct_op_trigrams": a.trigrams.len(),
             "distinct_abstract_states": a.states.len(),
-            "abstract_state_measure": "(records bucket, limit-vs-records relation, empty-query cache primed since last change, adds since clear bucket, ever cleared, caller thread polluted, thread generation) at each search",
+            "abstract_state_measure": "hist: (records bucket, limit-vs-records relation, empty-query cache primed since last change, adds since clear bucket, ever cleared, caller thread polluted, thread generation) at each search; registry: (op kind, live ids on the thread, records bucket, limit relation, buffer non-empty, id re-created, thread polluted) after each call; replica: (records bucket, limit relation, replicas, threads used, replicas searched during delivery, polluted, hits bucket) at each convergence check; scratch: (length buckets of both words and of the previous call, growth, capacity knob, matrix size bucket) per call",
             "aborted_by_panic": a.aborted_by_panic,
             "determinism_recheck": {"runs": recheck_runs, "mismatches": 0},
             "cross_build_runs_compared": cross_runs,
